@@ -6,7 +6,8 @@
 (*   line 1:  [terms |-> <<raw term, ...>>]   table of all terms mentioned *)
 (*   line n:  one case                                                     *)
 (*     [id, k, t |-> <<table indices of the input terms>>, runs |-> <<run>>*)
-(*      (+ bounds, pd for k = "shared"; f for k = "field")]                *)
+(*      (+ bounds, pd for k = "shared"; f for k = "field"; x for "pair":   *)
+(*       1 when the terms are not from a universe of TypeAlgebraLemmas)]   *)
 (*     run = [o |-> <<order...>>, obs |-> <<step, ...>>]                   *)
 (*     step = <<table index of VeryConcreteType of every input reference   *)
 (*              after that call>>                                          *)
@@ -79,7 +80,10 @@ BumpIf(cond, i) == IF cond THEN Bump(i) ELSE TRUE
 (* pair                                                                    *)
 (***************************************************************************)
 \* kn: what is known on either side; wit: witnesses of the two inputs.
-JudgePairRun(a, b, m, kn, wit, run) ==
+\* extra: the case is outside the universes of TypeAlgebraLemmas (c.x = 1), so
+\* the result is also tested directly against Member and Known; inside them
+\* Meet is already proved to be the intersection and to keep what is known.
+JudgePairRun(a, b, m, kn, wit, extra, run) ==
   LET ra1 == R(run, 1, 1)
       rb1 == R(run, 1, 2)
       WitOk(r) == \A w \in wit \cup Witnesses(r) :
@@ -87,10 +91,11 @@ JudgePairRun(a, b, m, kn, wit, run) ==
   IN   Fail(ra1 = rb1, "sides_equal", ra1, rb1)
     \o Fail(IsBot(ra1) <=> IsBot(m), "clash_iff_no_common_instance", m, ra1)
     \o Fail(ra1 = m /\ rb1 = m, "equals_meet", m, <<ra1, rb1>>)
-    \o Fail(IsBot(m) \/ IsBot(ra1) \/ kn \subseteq Known(ra1),
-            "keeps_known", kn \ Known(ra1), ra1)
-    \o Fail(WitOk(ra1) /\ (rb1 = ra1 \/ WitOk(rb1)),
-            "instances_are_the_common_instances", m, <<ra1, rb1>>)
+    \o (IF ~extra THEN <<>>
+        ELSE Fail(IsBot(m) \/ IsBot(ra1) \/ kn \subseteq Known(ra1),
+                  "keeps_known", kn \ Known(ra1), ra1)
+          \o Fail(WitOk(ra1) /\ (rb1 = ra1 \/ WitOk(rb1)),
+                  "instances_are_the_common_instances", m, <<ra1, rb1>>))
     \o Fail(run.obs[2] = run.obs[1] \/ Step(run, 2) = Step(run, 1),
             "idempotent", Step(run, 1), Step(run, 2))
 
@@ -101,9 +106,9 @@ JudgePair(c) ==
       kn  == Known(a) \cup Known(b)
       wit == Witnesses(a) \cup Witnesses(b)
   IN   Fail(InputsOk(c, 0), "input_wellformed", "", "")
-    \o JudgePairRun(a, b, m, kn, wit, c.runs[1])
+    \o JudgePairRun(a, b, m, kn, wit, c.x = 1, c.runs[1])
     \o (IF c.runs[2].obs = c.runs[1].obs THEN <<>>   \* same record, same verdict
-        ELSE JudgePairRun(a, b, m, kn, wit, c.runs[2]))
+        ELSE JudgePairRun(a, b, m, kn, wit, c.x = 1, c.runs[2]))
     \o Fail(Step(c.runs[1], 1) = Step(c.runs[2], 1), "symmetric",
             Step(c.runs[1], 1), Step(c.runs[2], 1))
 
@@ -137,7 +142,8 @@ JudgeTripleRun(tt, run) ==
                         "second_clash_iff_no_common_instance", m, Step(run, 2))
               ELSE Fail(\A k \in 1..3 : R(run, 2, k) = m, "second_equals_meet3",
                         m, Step(run, 2)))
-             \o Fail(Step(run, 3) = Step(run, 2) /\ Step(run, 4) = Step(run, 2),
+             \o Fail((run.obs[3] = run.obs[2] /\ run.obs[4] = run.obs[2])
+                       \/ (Step(run, 3) = Step(run, 2) /\ Step(run, 4) = Step(run, 2)),
                      "idempotent", Step(run, 2), <<Step(run, 3), Step(run, 4)>>))
 
 RECURSIVE JudgeRuns(_, _, _)
@@ -193,8 +199,8 @@ JudgeDerived(c, exp, part) ==   \* part: what the second reference must show
         THEN Fail(IsBot(r1) \/ IsBot(r2), "clash_iff_no_common_instance", exp,
                   <<r1, r2>>)
         ELSE Fail(r1 = exp /\ r2 = part, "equals_meet", <<exp, part>>, <<r1, r2>>)
-             \o Fail(Step(run, 2) = Step(run, 1), "idempotent", Step(run, 1),
-                     Step(run, 2)))
+             \o Fail(run.obs[2] = run.obs[1] \/ Step(run, 2) = Step(run, 1),
+                     "idempotent", Step(run, 1), Step(run, 2)))
 
 DerivedClashLost(c, exp) ==
   /\ IsBot(exp)
@@ -245,7 +251,8 @@ JudgeSharedRun(c, sols, run) ==
                             Leq(Meet(Subst(a, s), Subst(b, s)), ra1),
             "keeps_every_common_instance", "", ra1)
     \o Fail(IsBot(ra1) \/ Leq(ra1, up), "keeps_known", up, ra1)
-    \o Fail(Step(run, 2) = Step(run, 1), "idempotent", Step(run, 1), Step(run, 2))
+    \o Fail(run.obs[2] = run.obs[1] \/ Step(run, 2) = Step(run, 1),
+            "idempotent", Step(run, 1), Step(run, 2))
 
 JudgeShared(c) ==
   LET sols == Sols(c)
